@@ -85,6 +85,16 @@ def gen_case(rng):
                  rng.choice([["p", rng.choice(places)],
                              ["f", rand_decimal(rng)]]),
                  [rng.choice(["neg", "abs"]), ["p", dest]]]
+        narrow = [p for p, (n, f) in zip(
+            [f"v:{n}" for n, f in vars_] + [f"l:{n}" for n, f in locs],
+            vars_ + locs) if f in ("i", "I")]
+        if narrow and rng.random() < 0.1:
+            # unary minus of a 32-bit integer inside a fixed-point
+            # (64-bit) computation
+            t = ["b", rng.choice(["*", "+", "-"]),
+                 rng.choice([["f", rand_decimal(rng)]]
+                            + [["p", p] for p in places if p[0] == "r"][:1]),
+                 ["neg", ["p", rng.choice(narrow)]]]
         if rng.random() < 0.12:
             # constants whose scaled value sits around the 32-bit immediate
             # boundaries (2^31 = 21474.83648, 2^32 = 42949.67296)
